@@ -55,6 +55,44 @@ def learn_error_helpers(mod) -> None:
                 changed = True
 
 
+_CURRENT_FN: list[ast.AST | None] = [None]
+_ERR_NAMES: dict[int, set[str]] = {}
+
+
+def err_names(fn: ast.AST | None) -> set[str]:
+    """locals of `fn` that hold an error envelope whenever they are not None: every binding is `None` or an error value"""
+    if fn is None:
+        return set()
+    if id(fn) not in _ERR_NAMES:
+        _ERR_NAMES[id(fn)] = set()  # (recursion guard: error_value below consults this table)
+        binds: dict[str, list[ast.AST]] = {}
+        other: set[str] = set()
+        for n in walk_no_nested(fn):
+            if isinstance(n, ast.Assign) and len(n.targets) == 1 and isinstance(n.targets[0], ast.Name):
+                binds.setdefault(n.targets[0].id, []).append(n.value)
+            elif isinstance(n, (ast.Assign, ast.AugAssign, ast.AnnAssign, ast.For, ast.With, ast.NamedExpr)):
+                for x in ast.walk(n):
+                    if isinstance(x, ast.Name) and isinstance(x.ctx, ast.Store):
+                        other.add(x.id)
+        out = set()
+        for nm, vs in binds.items():
+            if nm in other:
+                continue
+            if any(not (isinstance(v, ast.Constant) and v.value is None) for v in vs) and all((isinstance(v, ast.Constant) and v.value is None) or _is_error_call(v) for v in vs):
+                out.add(nm)
+        _ERR_NAMES[id(fn)] = out
+    return _ERR_NAMES[id(fn)]
+
+
+def _is_error_call(v: ast.AST) -> bool:
+    if isinstance(v, ast.Call) and isinstance(v.func, (ast.Attribute, ast.Name)):
+        name = v.func.attr if isinstance(v.func, ast.Attribute) else v.func.id
+        return "error" in name.lower() or name in _ERROR_HELPERS
+    if isinstance(v, ast.Dict):
+        return any(isinstance(k, ast.Constant) and k.value == "status" and isinstance(val, ast.Constant) and val.value == "error" for k, val in zip(v.keys, v.values))
+    return False
+
+
 def error_value(v: ast.AST | None) -> bool:
     return v is not None and error_return(ast.Return(value=v))
 
@@ -70,6 +108,8 @@ def error_return(node: ast.AST) -> bool:
             return True
     if isinstance(v, ast.Name) and v.id in _ERROR_VARS.get(_CURRENT_FUNC[0], set()):
         return True
+    if isinstance(v, ast.Name) and v.id in err_names(_CURRENT_FN[0]):
+        return True  # (None-or-error local: callers establish that it is not None on the path - see nn_reach)
     if isinstance(v, ast.Dict):
         for k, val in zip(v.keys, v.values):
             if isinstance(k, ast.Constant) and k.value == "status" and isinstance(val, ast.Constant) and val.value == "error":
@@ -95,6 +135,7 @@ def cas_helper_summary(h, res: Resolver, target_param: str, bh_param: str) -> tu
     fa = FuncAnalysis(h, res)
     if fa.effects(fsm.MUTATING):
         return None
+    _CURRENT_FN[0] = h.node
     cas = Cas(_HelperInst(fa, target_param), res, bh={bh_param})  # type: ignore[arg-type]
     cfg = cas.cfg
     rets = [n for n in cfg.nodes if isinstance(n.ast, ast.Return)]
@@ -110,7 +151,7 @@ def cas_helper_summary(h, res: Resolver, target_param: str, bh_param: str) -> tu
         valid = set()
         for tid, info in cas.compares.items():
             mis = [x for x, lab in cfg.succ[tid] if lab == info["mismatch"]]
-            rr = _returns_reachable(cfg, mis, stop=set())
+            _nodes, rr = nn_reach(cfg, h.node, mis, stop=set())
             hv = info["hash_var"]
             computed = any(any(cfg.dominated_by(tid, a) for a in cfg.node_for_stmt_containing(st)) for st, _ in cas.hash_vars[hv])
             if rr and not (set(rr) & success) and computed:
@@ -360,6 +401,7 @@ def check(run: Run) -> None:
         learn_error_helpers(inst.fa.fi.module)
         _CURRENT_FUNC[0] = inst.fa.fi.fqn
         cas = Cas(inst, res)
+        _CURRENT_FN[0] = inst.fa.fi.node  # (after Cas: its helper summaries set their own function)
         fa, cfg, fi, mod = cas.fa, cas.cfg, cas.fa.fi, cas.fa.fi.module
         if not cas.bh:
             raise AnalysisError(f"{fi.fqn}: no base_hash parameter/local recognised")
@@ -372,8 +414,8 @@ def check(run: Run) -> None:
         valid: set[int] = set()
         for tid, info in cas.compares.items():
             mis_succ = [s for s, lab in cfg.succ[tid] if lab == info["mismatch"]]
-            reaches_replace = any(s == R or cfg.path_exists(s, R, {"x"}) for s in mis_succ)
-            rets = _returns_reachable(cfg, mis_succ, stop={R})
+            reached, rets = nn_reach(cfg, fi.node, mis_succ, stop={R})
+            reaches_replace = R in reached
             all_err = bool(rets) and all(error_return(cfg.nodes[r].ast) for r in rets)
             ok = not reaches_replace and all_err
             if ok:
@@ -602,6 +644,61 @@ def _temp_cleanup(run: Run, inst: Install, cas: Cas) -> None:
         what = norm(endn.ast)[:80] if endn.ast is not None else ("raise" if end == cfg.raise_exit else "fall off the end")
         run.violation("R17.10", mod, fi.qualname, f"temp file not removed before `{what}`", "a failing exit of the install function is reachable after mkstemp without os.unlink(<temp>): the call reports an error (or raises) and leaves its fully written temp file next to the target - the file system is not as it was",
                       path=cfg.describe_path(pth[-12:], mod.relpath), line=endn.lineno)
+
+
+def nn_reach(cfg: CFG, fn: ast.AST, starts: list[int], stop: set[int]) -> tuple[set[int], list[int]]:
+    """nodes and return nodes reachable from `starts` along normal edges, not continuing past `stop`, where the None-ness of the
+    None-or-error locals (err_names) is tracked: `x = None` / `x = <error value>` set it, a test of x (`x is None`, `x is not
+    None`, `x`, `not x`) is followed only on the edge that agrees with what is known (and teaches it on the other paths)"""
+    tracked = err_names(fn)
+
+    def test_of(t: ast.AST) -> tuple[str, bool] | None:
+        # (variable, edge on which it is NOT None)
+        neg = False
+        if isinstance(t, ast.UnaryOp) and isinstance(t.op, ast.Not):
+            t, neg = t.operand, True
+        if isinstance(t, ast.Name) and t.id in tracked:
+            return t.id, not neg
+        if isinstance(t, ast.Compare) and len(t.ops) == 1 and isinstance(t.left, ast.Name) and t.left.id in tracked and isinstance(t.comparators[0], ast.Constant) and t.comparators[0].value is None and isinstance(t.ops[0], (ast.Is, ast.IsNot)):
+            return t.left.id, isinstance(t.ops[0], ast.IsNot) != neg
+        return None
+
+    seen: set[tuple[int, frozenset]] = set()
+    nodes: set[int] = set()
+    rets: list[int] = []
+    work: list[tuple[int, frozenset]] = [(s, frozenset()) for s in starts]
+    while work:
+        n, st = work.pop()
+        if (n, st) in seen:
+            continue
+        seen.add((n, st))
+        nodes.add(n)
+        if n in stop:
+            continue
+        node = cfg.nodes[n]
+        if isinstance(node.ast, ast.Return):
+            if n not in rets:
+                rets.append(n)
+            continue
+        d = dict(st)
+        if node.kind == "stmt" and isinstance(node.ast, ast.Assign) and len(node.ast.targets) == 1 and isinstance(node.ast.targets[0], ast.Name) and node.ast.targets[0].id in tracked:
+            v = node.ast.value
+            d[node.ast.targets[0].id] = "N" if isinstance(v, ast.Constant) and v.value is None else "E"
+        tv = test_of(node.ast) if node.kind == "test" and node.ast is not None else None
+        for s, lab in cfg.succ[n]:
+            if lab == "x":
+                continue
+            d2 = d
+            if tv is not None and lab in ("t", "f"):
+                var, nn_edge_true = tv
+                not_none_here = (lab == "t") == nn_edge_true
+                known = d.get(var)
+                if known is not None and (known == "E") != not_none_here:
+                    continue  # infeasible edge
+                d2 = dict(d)
+                d2[var] = "E" if not_none_here else "N"
+            work.append((s, frozenset(d2.items())))
+    return nodes, sorted(rets)
 
 
 def _returns_reachable(cfg: CFG, starts: list[int], stop: set[int], follow_exc: bool = False) -> list[int]:
